@@ -99,13 +99,16 @@ impl S3PartitionStorage {
                             //4 bytes
                             file_buffer.put_slice(&value.version.to_le_bytes());
 
-                            db.set_value_as_ok(
-                                &key,
-                                &value,
-                                partition, // Use partition id here to know where to store
-                                partition, // Use partition id here to know where to store
-                                Databases::next_op_log_id(),
-                            );
+                            // A removed key stays removed in memory: marking it Ok would turn it into a live key
+                            if value.state != ValueStatus::Deleted {
+                                db.set_value_as_ok(
+                                    &key,
+                                    &value,
+                                    partition, // Use partition id here to know where to store
+                                    partition, // Use partition id here to know where to store
+                                    Databases::next_op_log_id(),
+                                );
+                            }
                         }
                         log::debug!(
                             "Will store the database {} partition {}",
